@@ -6,7 +6,7 @@ os.makedirs(d, exist_ok=True)
 a = json.load(open(f'{src}/meta.json')) if os.path.exists(f'{src}/meta.json') else {}
 for f in ('patch.diff', 'demo.py'):
     open(f'{d}/{f}', 'w').write(open(f'{src}/{f}').read())
-m = {"property": a.get("property", id.split('_')[0]),
+m = {"property": id[:3], "round": 2 if id.endswith("r2") else 1,
      "origin": "fresh sub-agent given only the property text and a scratch worktree of /repo (no access to /verif)",
      "summary": a.get("summary"), "what_it_needs_to_manifest": a.get("what_it_needs_to_manifest"),
      "files_changed": a.get("files_changed"), "agent_tests_run": a.get("tests_run"),
